@@ -62,11 +62,11 @@ _TEMPLATES = {}
 
 
 def template_func(source, name=None, closure=False):
-    from .core import normalise_tree
-    key = (hash(source), len(source), name, closure)
+    from .core import normalise_tree, SIMPLE_GENERATORS
+    key = (hash(source), len(source), name, closure, tuple(sorted(SIMPLE_GENERATORS.items())))
     if key in _TEMPLATES:
         return _TEMPLATES[key]
-    tkey = key[:2]
+    tkey = key[:2] + key[4:]
     if tkey not in _TREES:
         _TREES[tkey] = normalise_tree(ast.parse(source))
     tree = _TREES[tkey]
@@ -1172,6 +1172,45 @@ def canonical_func(fi):
                     forward_substitute(sub)
             for h in getattr(st, 'handlers', []) or []:
                 forward_substitute(h.body)
+    def fold_appends(body):
+        """`v = []` (or list()) directly followed by `v.append(a); v.append(b)` is `v = [a, b]`."""
+        for st in body:
+            for field in ('body', 'orelse', 'finalbody'):
+                sub = getattr(st, field, None)
+                if isinstance(sub, list) and sub and isinstance(sub[0], ast.stmt) and not isinstance(st, (ast.FunctionDef, ast.ClassDef)):
+                    fold_appends(sub)
+            for h in getattr(st, 'handlers', []) or []:
+                fold_appends(h.body)
+        i = 0
+        while i < len(body):
+            a = body[i]
+            empty = isinstance(a, ast.Assign) and len(a.targets) == 1 and isinstance(a.targets[0], ast.Name) and (
+                (isinstance(a.value, ast.List) and not a.value.elts) or
+                (isinstance(a.value, ast.Call) and isinstance(a.value.func, ast.Name) and a.value.func.id == 'list' and not a.value.args and not a.value.keywords))
+            if empty:
+                v = a.targets[0].id
+                elts = []
+                j = i + 1
+                # the empty list may be created later: simple statements in between that do not mention it are stepped over
+                while j < len(body) and isinstance(body[j], (ast.Assign, ast.AugAssign, ast.AnnAssign)) and v not in names_in(body[j]):
+                    j += 1
+                first_app = j
+                while j < len(body):
+                    b = body[j]
+                    if isinstance(b, ast.Expr) and isinstance(b.value, ast.Call) and isinstance(b.value.func, ast.Attribute) and b.value.func.attr == 'append' \
+                            and isinstance(b.value.func.value, ast.Name) and b.value.func.value.id == v and len(b.value.args) == 1 and not b.value.keywords \
+                            and v not in names_in(b.value.args[0]) and not isinstance(b.value.args[0], ast.Starred):
+                        elts.append(b.value.args[0])
+                        j += 1
+                    else:
+                        break
+                if elts:
+                    a.value = ast.copy_location(ast.List(elts=elts, ctx=ast.Load()), a.value)
+                    del body[first_app:j]
+                    if first_app > i + 1:
+                        body.insert(first_app - 1, body.pop(i))
+            i += 1
+    fold_appends(node.body)
     forward_substitute(node.body)
 
     class D(ast.NodeTransformer):
@@ -1376,7 +1415,8 @@ def canonical_func(fi):
                 i, v = n.target.elts
                 xs = it.args[0]
                 body_stores = {x.id for st in n.body for x in ast.walk(st) if isinstance(x, ast.Name) and isinstance(x.ctx, ast.Store)}
-                if i.id not in body_stores and not (names_in(xs) & (body_stores | {i.id, v.id})):
+                # (re-binding the index or the element inside the body does not disturb either form of the loop)
+                if i.id != v.id and not (names_in(xs) & (body_stores | {i.id, v.id})):
                     n.target = ast.copy_location(ast.Name(id=i.id, ctx=ast.Store()), i)
                     n.iter = ast.copy_location(ast.Call(func=ast.Name(id='range', ctx=ast.Load()), args=[
                         ast.Call(func=ast.Name(id='len', ctx=ast.Load()), args=[copy_ast(xs)], keywords=[])], keywords=[]), it)
@@ -1667,6 +1707,8 @@ def effects(fi, keep=(), use_semiring=True, helper=None):
                 t = t[2]
             if t and len(t) == 4 and t[0] == 'call' and t[1] == ('fn', 'len'):
                 t = ('cmp', ('NotEq',), t, ('const', '0'))        # `if len(x):`
+            elif t and len(t) == 4 and t[0] == 'call' and t[1] in (('fn', 're.match'), ('fn', 're.search'), ('fn', 're.fullmatch')):
+                t = ('cmp', ('IsNot',), t, ('const', 'None'))     # `if re.match(..):` - a match object is always true
             elif container_valued(t):
                 # truthiness of a built-in container is `len(..) != 0`
                 t = ('cmp', ('NotEq',), ('call', ('fn', 'len'), (t,), ()), ('const', '0'))
@@ -1683,6 +1725,126 @@ def effects(fi, keep=(), use_semiring=True, helper=None):
                 t = ('cmp', (op,), l, r)
             return (kind, t)
         return c
+    # --- integer comparisons against the bounds of an enclosing `for i in range(N)` -------------------------------------
+    def lin_of(t):
+        """canonical term -> ({atom: coefficient}, constant) or None"""
+        if not isinstance(t, tuple) or not t:
+            return None
+        if t[0] == 'const':
+            try:
+                v = ast.literal_eval(t[1])
+            except Exception:
+                return None
+            return ({}, v) if isinstance(v, int) and not isinstance(v, bool) else None
+        if t[0] in ('prod', 'add') and use_semiring == (t[0] == 'prod'):
+            terms, const = {}, 0
+            for x in t[1:]:
+                l_ = lin_of(x)
+                if l_ is None:
+                    return None
+                for k_, v_ in l_[0].items():
+                    terms[k_] = terms.get(k_, 0) + v_
+                const += l_[1]
+            return {k_: v_ for k_, v_ in terms.items() if v_}, const
+        if t[0] == 'neg' and len(t) == 2:
+            l_ = lin_of(t[1])
+            return None if l_ is None else ({k_: -v_ for k_, v_ in l_[0].items()}, -l_[1])
+        if t[0] == 'mul':
+            parts = [lin_of(x) for x in t[1:]]
+            if any(p_ is None for p_ in parts):
+                return None
+            consts = [p_ for p_ in parts if not p_[0]]
+            rest = [p_ for p_ in parts if p_[0]]
+            if len(rest) <= 1:
+                k = 1
+                for p_ in consts:
+                    k *= p_[1]
+                if not rest:
+                    return {}, k
+                return {a_: v_ * k for a_, v_ in rest[0][0].items()}, rest[0][1] * k
+            return {t: 1}, 0
+        return {t: 1}, 0
+
+    def lsub(a_, b_):
+        terms = dict(a_[0])
+        for k_, v_ in b_[0].items():
+            terms[k_] = terms.get(k_, 0) - v_
+        return {k_: v_ for k_, v_ in terms.items() if v_}, a_[1] - b_[1]
+
+    def lfreeze(l_):
+        return tuple(sorted(l_[0].items(), key=repr)), l_[1]
+
+    def range_facts(headers):
+        """[(loop variable, linear forms f known to satisfy f < 0, integer-valued atoms)] from `for v in range(N)` / `range(0, N)`"""
+        facts, ints = [], set()
+        for c in headers:
+            if c[0] != 'for' or len(c) < 3 or not isinstance(c[2], tuple) or c[2][:2] != ('call', ('fn', 'range')) or c[2][3]:
+                continue
+            args = c[2][2]
+            if len(args) == 2 and args[0] == ('const', '0'):
+                args = args[1:]
+            if len(args) != 1 or not isinstance(c[1], tuple) or c[1][0] != 'sym':
+                continue
+            n_ = lin_of(args[0])
+            if n_ is None:
+                continue
+            v_ = ({c[1]: 1}, 0)
+            facts.append(lsub(v_, n_))                         # v - N < 0
+            facts.append(({c[1]: -1}, -1))                     # -v - 1 < 0
+            ints.add(c[1])
+            ints |= set(n_[0])
+        return facts, ints
+
+    def bound_atoms(block, headers):
+        """Integer comparisons that involve the variable of an enclosing range loop, as `d < 0` / `d == 0` / `d != 0` over a linear
+        form d; an equality AT a bound of the range is the order comparison (`i + 1 == N` is `i + 1 >= N`), a conjunct implied by the
+        range or by a stronger conjunct of the same block is dropped (`i < N - 1 and i < N - 2`)."""
+        facts, ints = range_facts(headers)
+        if not facts:
+            return block
+        loopvars = {k_ for f_ in facts for k_ in f_[0] if k_[0] == 'sym'}
+        out_, lts = [], []
+        for c in block:
+            t = c[1] if c[0] == 'if' and len(c) == 2 else None
+            if not (isinstance(t, tuple) and len(t) == 4 and t[0] == 'cmp' and len(t[1]) == 1 and t[1][0] in ('Lt', 'LtE', 'Eq', 'NotEq')):
+                out_.append(c)
+                continue
+            a_, b_ = lin_of(t[2]), lin_of(t[3])
+            if a_ is None or b_ is None:
+                out_.append(c)
+                continue
+            d = lsub(a_, b_)
+            if not (set(d[0]) & loopvars) or not set(d[0]) <= ints:
+                out_.append(c)
+                continue
+            op = t[1][0]
+            if op == 'LtE':
+                op, d = 'Lt', (d[0], d[1] - 1)
+            if op in ('Eq', 'NotEq'):
+                neg_d = ({k_: -v_ for k_, v_ in d[0].items()}, -d[1])
+                if any(lfreeze((d[0], d[1] - 1)) == lfreeze(f_) for f_ in facts):        # d <= 0 is known
+                    op, d = ('Lt', (neg_d[0], neg_d[1] - 1)) if op == 'Eq' else ('Lt', d)
+                elif any(lfreeze((neg_d[0], neg_d[1] - 1)) == lfreeze(f_) for f_ in facts):  # d >= 0 is known
+                    op, d = ('Lt', (d[0], d[1] - 1)) if op == 'Eq' else ('Lt', neg_d)
+                else:
+                    if repr(lfreeze(neg_d)) < repr(lfreeze(d)):
+                        d = neg_d
+                    out_.append(('if', ('lincmp', op, lfreeze(d))))
+                    continue
+            lts.append(d)
+        keep = []
+        for d in lts:
+            if any(lfreeze((d[0], 0))[0] == lfreeze((f_[0], 0))[0] and d[1] <= f_[1] for f_ in facts):
+                continue                                       # implied by the range itself
+            keep.append(d)
+        strongest = {}
+        for d in keep:
+            k_ = lfreeze((d[0], 0))[0]
+            if k_ not in strongest or d[1] > strongest[k_][1]:
+                strongest[k_] = d
+        out_.extend(('if', ('lincmp', 'Lt', lfreeze(d))) for d in strongest.values())
+        return out_
+
     def flatten_ctx(items):
         # the contexts of an effect form a conjunction: `if a: if b:` is `if a and b:`; tests between two loop / try headers
         # are kept as one sorted block
@@ -1690,7 +1852,7 @@ def effects(fi, keep=(), use_semiring=True, helper=None):
 
         def flush():
             if block:
-                out.extend(sorted(set(block), key=repr))
+                out.extend(sorted(set(bound_atoms(block, out)), key=repr))
                 del block[:]
         for c in items:
             if c[0] == 'if' and len(c) == 2:
